@@ -76,6 +76,27 @@ func main() {
 	}
 }
 `),
+	witness.Src("integer_zero_has_no_sign", "", `package main
+
+import "math"
+
+func s(f float64) bool { return math.Signbit(f) }
+
+func main() {
+	a, b := int32(-4000), int32(2000)
+	var z int32
+	var i8 int8 = -4
+	var u8 uint8
+	var i int = -6
+	var i16 int16 = -3
+	var i64 int64 = -4000
+	println(s(float64(a%b)), s(float64(-z)), s(float64(z*a)), s(float64(z/a)), s(float64(i8%2)), s(float64(-u8)), s(float64(i%3)), s(float64(i16%3)), s(float64(z&a)), s(float64(int8(z*a))))
+	println(s(float64(float32(a%b))), s(float64(i64%2000)), s(float64(-int64(z))), s(real(complex(float64(a%b), 0))), 1/float64(a%b) > 0)
+	nf := -0.4
+	nz := math.Copysign(0, -1)
+	println(s(float64(z<<3)), s(float64(-z>>1)), s(float64(^z+1)), s(float64(int32(nz))), s(float64(int32(nf))), s(float64(int64(nf))), s(float64(int8(nf))), s(float64(uint16(-nf))))
+}
+`),
 	witness.Src("float_to_int_truncates", "", `package main
 
 var fs = []float64{0.5, -0.5, 1.5, -1.5, 2.5, 1e9, -1e9, 2147483647.9, -2147483648.9, 4294967295.5, 255.9, -128.9, 65535.99, 1e15 + 0.5, -(1e15 + 0.5), 9007199254740993}
